@@ -791,6 +791,15 @@ def engine_chain(run, rng: random.Random, base: str, case_id: Any, sample: bool)
                                 ck.fail('listed-file-unreadable', f'chain: File {f.path!r} cannot be opened: {exc!r}')
                                 continue
                             run.count('listed_names_looked_up')
+                            # which member a listed file comes from: the first one (in priority order) that holds the name
+                            try:
+                                owner = chain.get_system(f)
+                                first = next((members[i][0].fs for i in final if members[i][0].ref.lookup(join(members[i][1], f.path)) is not None), None)
+                                run.count('get_system_calls')
+                                if first is not None and owner is not first and not any(members[i][0].kind == 'raw' and not members[i][0].ref.fold for i in final):
+                                    ck.fail('chain-get-system-wrong', f'chain.get_system() of the listed file {f.path!r} is not the first member that holds it', {'layout': layout})
+                            except Exception as exc:
+                                ck.fail('chain-get-system-wrong', f'chain.get_system({f.path!r}) raised {type(exc).__name__}: {exc}', {'layout': layout})
                             if own != want_once[k]:
                                 ck.fail(blame_member_walk(p) or 'chain-priority-violated', f'chain.walk_folder({p!r}) lists {f.path!r} with bytes {own[:40]!r}; the first member holding it has {want_once[k][:40]!r}', {'layout': layout})
                             # a listed name can be looked up - with exact-case Raw members a folded duplicate may legitimately
@@ -875,7 +884,7 @@ def main(run, shard=(0, 1)) -> None:
     run.extra['raw_backend_case_sensitive'] = bool(_CASE_SENSITIVE)
     probe.report(run)
     probe.check_reached(run)
-    run.require('lookups', 'file_sets_with_non_ascii_names', 'nested_chains_compared', 'walks', 'listed_names_looked_up', 'chain_lookups', 'chain_walks', 'add_sys_priority',
+    run.require('lookups', 'file_sets_with_non_ascii_names', 'nested_chains_compared', 'get_system_calls', 'walks', 'listed_names_looked_up', 'chain_lookups', 'chain_walks', 'add_sys_priority',
                 'chains_with_prefixed_member', 'backend_virtual', 'backend_zip', 'backend_vpk', 'backend_raw',
                 'casedup_backends_checked', 'chain_members_4', 'chains_with_member_mounted_twice')
 
